@@ -55,3 +55,15 @@ From Turn Require Import Common RelayCheck RelayProps RelayTrace.
 Theorem C15_predicate_holds_on_every_model_trace : forall cfg ep h, chk_C15 (model_case cfg ep h) = true.
 Proof. exact chk_C15_on_model. Qed.
 Print Assumptions C15_predicate_holds_on_every_model_trace.
+
+(* and a closed server is inert: in the model, messages that reach the transport of a server that has been closed are the
+   event EDeadMsg (the harness records every event it issues after Server.Close as EDeadMsg); nothing happens, and the
+   checked predicate additionally demands of the implementation that such a step shows no action of any kind *)
+Theorem C15_nothing_after_close : forall cfg s n,
+  run cfg (fst (step cfg s ESrvClose)) (repeat EDeadMsg n) = (fst (step cfg s ESrvClose), repeat [] n) /\
+  allocs (fst (step cfg s ESrvClose)) = [].
+Proof.
+  intros cfg s n. split; [|reflexivity]. induction n as [|n IH]; [reflexivity|]. cbn [repeat run]. cbn [step] in *.
+  rewrite IH. reflexivity.
+Qed.
+Print Assumptions C15_nothing_after_close.
